@@ -424,7 +424,7 @@ func genOpts(rt *rapid.T) cssgen.Opts {
 }
 
 func runCascade(t *testing.T) {
-	H.Rule("cascade", "rapid: style sheets over cssgen's grammar (3+1 tags, 3 classes, 2 ids, attribute forms, :hover/:first-child/:last-child/:active, :focus-visible and an unknown pseudo-class, ::before/::after and vendor pseudo-elements, all combinators, :is/:where/:not/:has, nesting with & in every position, @media incl. range syntax, @supports incl. selector(), @layer named/nested/anonymous/statement, @container, !important, box shorthand/longhand bursts, border-radius, colours in every notation, calc, var, custom properties, duplicates, reused bodies/selectors, junk declarations) × config (minify flags, old/mid engine targets, Supported overrides, loaders css/global-css/local-css); oracle: cssref cascade over 3 DOM trees (24 elements × pseudo-elements) × 5 devices × every admissible subset of the ≤6 relevant features: win_out(E) ∈ {win_in(E′): E′ ⊇ E}, exists whenever win_in(E) exists, equal when E understands all of the input; non-trivial = normalised rule/declaration structure of the output differs from the input")
+	H.Rule("cascade", "rapid: style sheets over cssgen's grammar (3+1 tags, 3 classes, 2 ids, attribute forms, :hover/:first-child/:last-child/:active, :focus-visible and an unknown pseudo-class, ::before/::after and vendor pseudo-elements, all combinators, :is/:where/:not/:has, nesting with & in every position, @media incl. range syntax, @supports incl. selector(), @layer named/nested/anonymous/statement, @container, !important, box shorthand/longhand bursts, border-radius, colours in every notation, calc, var, custom properties, duplicates, reused bodies/selectors, junk declarations) × config (minify flags, old/mid engine targets, Supported overrides, loaders css/global-css/local-css); oracle: cssref cascade over 3 DOM trees (24 elements × pseudo-elements) × 5 devices × every admissible subset of the ≤6 relevant features: win_out(E) ∈ {win_in(E′): E′ ⊇ E}, exists whenever win_in(E) exists, equal when E understands all of the input; non-trivial = normalised rule/declaration structure of the output differs from the input. A failure counts as a listed finding only if the failing longhand and the failing environment fit that finding's signature (knownSignature); findings repaired in /repo have no signature any more — their stale signatures used to be tried first and hid C12-decl-after-nested-rule behind ids that are no longer listed, which the thorough tier reported as violations")
 	H.SetupRapid("cascade", H.N(2400, 400000))
 	rapid.Check(t, func(rt *rapid.T) {
 		o := genOpts(rt)
